@@ -129,6 +129,7 @@ def gen_lean():
     fields = {}
     for m in re.finditer(r'line\.startswith\("(\w+)"\):\s*\n(?:\s*#[^\n]*\n)*\s*(\w+) = line\[(\d+):\]\.strip\(\)', codon_src):
         fields[m.group(1)] = int(m.group(3))
+    fields = {k: v for k, v in fields.items() if k in ("AA", "Init", "Base1", "Base2", "Base3")}   # only the table rows
     if sorted(fields) != ["AA", "Base1", "Base2", "Base3", "Init"]:
         raise ValueError(f"CodonTable.load column extraction not found: {fields}")
     m = re.search(r'_default_table\s*=\s*CodonTable\.load\("([^"]+)"\)\.with_start_codons\(\[([^\]]*)\]\)', codon_src)
@@ -415,7 +416,7 @@ def run_impl(case):
         if op == "s_prot":
             s = seq.ProteinSequence(bytes(int(t) for t in _ptoks(w[1])).decode("latin-1"))
             return push(s, _NucA(s.get_alphabet()))
-        if op in ("s_str", "s_code", "s_valid", "s_get", "s_set", "s_slice", "s_setslice", "s_rev", "s_copy", "s_compl", "s_setcode", "s_setarr"):
+        if op in ("s_str", "s_code", "s_valid", "s_get", "s_set", "s_slice", "s_setslice", "s_rev", "s_copy", "s_compl", "s_setcode", "s_setarr", "s_pickle", "s_deepcopy"):
             i = int(w[1])
             if i >= len(regs):
                 return "ERR:noreg"
@@ -442,6 +443,12 @@ def run_impl(case):
                 return "ok " + _seq_tokens_safe((s, a))
             if op == "s_rev":
                 return push(s.reverse(), a)
+            if op == "s_pickle":
+                import pickle
+                return push(pickle.loads(pickle.dumps(s)), a)
+            if op == "s_deepcopy":
+                import copy
+                return push(copy.deepcopy(s), a)
             if op == "s_copy":
                 return push(s.copy(), a)
             if op == "s_compl":
@@ -494,6 +501,11 @@ def run_impl(case):
         if op == "c_load":
             table[0] = None
             t = seq.CodonTable.load(int(w[1]))
+            table[0] = t
+            return "ok " + _show_table(t)
+        if op == "c_loadname":
+            table[0] = None
+            t = seq.CodonTable.load(w[1].replace("~", " "))
             table[0] = t
             return "ok " + _show_table(t)
         if op == "c_default":
@@ -860,6 +872,42 @@ def _case_kmer_illegal(rng):
     return {"kind": "kmer-illegal", "ops": ops}
 
 
+def _case_pickle(rng):
+    """a sequence that went through pickle / deepcopy (equal but not identical alphabet object), then the usual ops"""
+    mode = rng.choice(["nuc-amb", "nuc-amb", "nuc", "prot", "gen", "gen"])
+    n = rng.choice([1, 2, 4, 7])
+    if mode.startswith("nuc"):
+        pool = "ACGTRYWSMKHBVDN" if mode == "nuc-amb" else "ACGT"
+        txt = [rng.choice(pool) for _ in range(n)] + (["N"] if mode == "nuc-amb" else [])
+        ops = ["s_nuc " + _ints(ord(c) for c in txt)]
+        sym = str(ord(rng.choice(pool)))
+    elif mode == "prot":
+        ops = ["s_prot " + _ints(ord(rng.choice(AA)) for _ in range(n))]
+        sym = str(ord(rng.choice(AA)))
+    else:
+        spec = _alph_spec(rng, small=True)
+        ops = [f"s_new {spec} {_toks(_rand_syms(rng, spec, n))}"]
+        sym = rng.choice(_spec_syms(spec))
+    ops.append(rng.choice(["s_pickle 0", "s_deepcopy 0"]))          # register 1
+    ops += ["s_str 1", "s_eq 1 0", "s_eq 0 1"]
+    k = 2
+    follow = ["s_copy 1", "s_slice 1 - -", "s_rev 1", "s_add 1 0", "s_add 0 1", "s_add 1 1", "s_slice 1 1 -"]
+    if mode.startswith("nuc"):
+        follow += ["s_compl 1", "s_compl 1"]
+    rng.shuffle(follow)
+    for f in follow[:5]:
+        ops += [f, f"s_str {k}", f"s_code {k}", f"s_valid {k}"]
+        if f == "s_copy 1":
+            ops += [f"s_eq {k} 0", f"s_eq 0 {k}", f"s_set {k} 0 {sym}", "s_str 1"]
+        if f == "s_rev 1":
+            ops += [f"s_rev {k}", f"s_eq {k + 1} 0"]
+            k += 1
+        k += 1
+    if rng.random() < 0.5:
+        ops += [rng.choice([f"s_pickle {k - 1}", f"s_deepcopy {k - 1}"]), f"s_str {k}", f"s_copy {k}", f"s_str {k + 1}"]
+    return {"kind": "sequence-pickle", "ops": ops}
+
+
 def _case_eq(rng):
     """`==` between sequences whose code arrays coincide although alphabet / class / symbols differ"""
     ops = []
@@ -1065,10 +1113,20 @@ def _case_codon(rng, table_id=None):
 def cases(rng, tier):
     scale = 1 if tier == "quick" else 12
     plan = [(_case_alphabet, 110), (_case_bytes, 16), (_case_newalph, 12), (_case_mapper, 50), (_case_mapper_big, 12),
-            (_case_sequence, 130), (_case_add, 30), (_case_eq, 40), (_case_kmer, 110), (_case_kmer_illegal, 20), (_case_codon, 110), (_case_derive, 50)]
+            (_case_sequence, 130), (_case_add, 30), (_case_eq, 40), (_case_pickle, 40), (_case_kmer, 110), (_case_kmer_illegal, 20), (_case_codon, 110), (_case_derive, 50)]
     for fn, cnt in plan:
         for _ in range(cnt * scale):
             yield fn(rng)
+    # every shipped table by id and by EVERY official name (names from an independent scan of codon_tables.txt)
+    by_id = {}
+    for name, tid in _file_table_names().items():
+        by_id.setdefault(tid, []).append(name)
+    for tid, names in sorted(by_id.items()):
+        ops = [f"c_load {tid}", "c_show"]
+        for name in names:
+            ops += ["c_loadname " + name.replace(" ", "~"), f"c_get {rng.choice(RADIX_CODONS)}", f"c_tr 0 0 {_rand_dna(rng, 18, ['ATG', 'TTG', 'CTG'])}"]
+        ops.append("c_loadname " + rng.choice(["Mitochondrial", "standard", "Flatworm", names[0][:-1], names[0] + "~x"]).replace(" ", "~"))   # not an official name
+        yield {"kind": "codon-names", "ops": ops}
     if tier == "thorough":
         # exhaustive: every byte value x every alphabet of size <= 4 over a fixed 4-letter pool (permutations)
         import itertools
@@ -1103,6 +1161,10 @@ def corpus():
         {"kind": "mapper-big", "ops": ["map R:3:300:7:290 R:300:300:1:0 0,1,2", "map R:2:70000:1:69998 R:70000:70000:1:0 1,0", "map R:300:300:1:0 R:10:10:1:0 0"]},
         {"kind": "kmer-illegal", "ops": ["k_kmers 4 3 - u8 0,1,2,4,3", "k_kmers 4 3 - u8 0,1,2,3,4", "k_kmers 4 3 - u8 4,1,2,3,3", "k_kmers 4 3 - u8 0,1,2,5,3",
                                          "k_kmers 4 3 0,2,3 u8 0,1,2,3,4"]},
+        {"kind": "sequence-pickle", "ops": ["s_nuc 65,67,78,82", "s_pickle 0", "s_copy 1", "s_str 2", "s_eq 2 0", "s_rev 1", "s_str 3", "s_compl 1", "s_str 4",
+                                            "s_slice 1 1 -", "s_str 5", "s_add 1 0", "s_str 6", "s_deepcopy 0", "s_copy 7", "s_str 8", "s_valid 8"]},
+        {"kind": "codon-names", "ops": ["c_loadname Flatworm~Mitochondrial", "c_load 9", "c_loadname Echinoderm~Mitochondrial", "c_loadname Alternative~Flatworm~Mitochondrial",
+                                        "c_load 14", "c_loadname Standard", "c_loadname Spiroplasma", "c_loadname Flatworm"]},
         {"kind": "sequence-eq", "ops": ["s_new L:65,67,71,84 65,65,67,71,84", "s_new L:84,71,67,65 84,84,71,67,65", "s_code 0", "s_code 1",
                                         "s_eq 0 1", "s_eq 1 0", "s_eq 0 0", "s_nuc 65,65,67,71,84", "s_eq 0 2", "s_eq 2 0"]},
     ]
@@ -1154,6 +1216,23 @@ def _file_tables():
                 tabs[int(rows["id"])] = (d, starts)
         _TABLE_CACHE[key] = tabs
     return _TABLE_CACHE[key]
+
+
+def _file_table_names():
+    """{official name: table id} of codon_tables.txt, by plain string processing"""
+    from common import paths
+    out = {}
+    for block in open(os.path.join(paths.SRC, "biotite/sequence/codon_tables.txt")).read().split("\n\n"):
+        names, tid = [], None
+        for line in block.split("\n"):
+            if line[:5] == "name ":
+                names = [n.strip() for n in line[5:].split(";")]
+            elif line[:3] == "id " and line[3:].strip().isdigit():
+                tid = int(line[3:])
+        for n in names:
+            if tid is not None:
+                out.setdefault(n, tid)
+    return out
 
 
 def _num(codon):
@@ -1302,7 +1381,7 @@ def reference(ops):
             elif poisoned:
                 if op == "s_str":
                     e = None if r.get("maybe_unchanged") else ("err", {"AlphabetError"})
-                elif op in ("s_slice", "s_rev", "s_copy", "s_compl", "s_add"):
+                elif op in ("s_slice", "s_rev", "s_copy", "s_compl", "s_add", "s_pickle", "s_deepcopy"):
                     regs.append({"kind": r["kind"], "alph": r["alph"], "syms": None, "maybe_unchanged": True})
                 e = e
             elif op == "s_str":
@@ -1362,7 +1441,7 @@ def reference(ops):
                 new = r["syms"][::-1]
                 regs.append({"kind": r["kind"], "alph": r["alph"], "syms": new})
                 e = ("eq", "ok " + _toks(new))
-            elif op == "s_copy":
+            elif op in ("s_copy", "s_pickle", "s_deepcopy"):
                 regs.append({"kind": r["kind"], "alph": r["alph"], "syms": list(r["syms"])})
                 e = ("eq", "ok " + _toks(r["syms"]))
             elif op == "s_eq":
@@ -1445,6 +1524,15 @@ def reference(ops):
                     table[0] = "unknown"
         elif op == "c_load":
             t = _file_tables().get(int(w[1]))
+            if t is None:
+                table[0] = None
+                e = ("anyerr",)
+            else:
+                table[0] = t
+                e = ("eq", _ref_table_line(*t))
+        elif op == "c_loadname":
+            tid = _file_table_names().get(w[1].replace("~", " "))
+            t = _file_tables().get(tid)
             if t is None:
                 table[0] = None
                 e = ("anyerr",)
